@@ -67,6 +67,9 @@ impl<K: KeyView, V> HashMap<K, V> {
     { unimplemented!() }
 
     #[verifier::external_body]
+    pub fn clear(&mut self) ensures final(self)@ == Map::<K::KV, V>::empty() { unimplemented!() }
+
+    #[verifier::external_body]
     pub fn len(&self) -> (r: usize) ensures r as nat == self@.dom().len(), self@.dom().finite() { unimplemented!() }
     #[verifier::external_body]
     pub fn is_empty(&self) -> (r: bool) ensures r == (self@ == Map::<K::KV, V>::empty()) { unimplemented!() }
